@@ -179,8 +179,21 @@ def _header(ctx, run, f):
 
 
 def _is_or_lt0_edge(f, ret):
-    """The return sits in the block entered through `page == 0xFF || (x | y) < 0`."""
+    """The return sits in the block entered through `page == 0xFF || (x | y) < 0` - or through separate `< 0` tests
+    of two or more decode results (`x < 0 || y < 0 || z < 0`)."""
     bid = flow.elem_pos(f)[ret][0]
+    singles = set()
+    for p in f.blocks[bid].preds:
+        for s_, lab in f.edges(p):
+            if s_ != bid:
+                continue
+            for a in atoms.edge_atoms(f, p, lab):
+                if a.rel == "<" and a.R is not None and a.R.const == 0 and not a.L.calls and not a.L.fields and len(a.L.locals) == 1:
+                    nm = sorted(a.L.locals)[0]
+                    if _assigned_from_decoder(f, nm):
+                        singles.add(nm)
+    if len(singles) >= 2:
+        yield True
     for p in f.blocks[bid].preds:
         t = f.blocks[p].term
         if t and "cond" in t:
